@@ -80,8 +80,8 @@ func vpSameIDSet(a, b []PDU) bool {
 
 func vpNotRejected(string) bool { return false }
 
-// vp:check C10 both configs=version:10|12;shape:topic|ban-vs-name|ban-vs-invite K=24 timeout=1200 maporder=github.com/matrix-org/gomatrixserverlib.ResolveStateConflictsV2New|github.com/matrix-org/gomatrixserverlib.splitConflictedUnconflicted|github.com/matrix-org/gomatrixserverlib.eventMapFromEvents|github.com/matrix-org/gomatrixserverlib.kahnsAlgorithmUsingAuthEvents|github.com/matrix-org/gomatrixserverlib.kahnsAlgorithmUsingPrevEvents
-// vp:check C11 both configs=version:1|10|12;shape:topic|ban-vs-name|ban-vs-invite K=24 timeout=1200 maporder=github.com/matrix-org/gomatrixserverlib.ResolveStateConflictsV2New|github.com/matrix-org/gomatrixserverlib.splitConflictedUnconflicted|github.com/matrix-org/gomatrixserverlib.eventMapFromEvents|github.com/matrix-org/gomatrixserverlib.kahnsAlgorithmUsingAuthEvents|github.com/matrix-org/gomatrixserverlib.kahnsAlgorithmUsingPrevEvents
+// vp:check C10 both configs=version:10|12;shape:topic|ban-vs-name|ban-vs-invite|stale-topic K=24 timeout=1200 maporder=github.com/matrix-org/gomatrixserverlib.ResolveStateConflictsV2New|github.com/matrix-org/gomatrixserverlib.splitConflictedUnconflicted|github.com/matrix-org/gomatrixserverlib.eventMapFromEvents|github.com/matrix-org/gomatrixserverlib.kahnsAlgorithmUsingAuthEvents|github.com/matrix-org/gomatrixserverlib.kahnsAlgorithmUsingPrevEvents
+// vp:check C11 both configs=version:1|10|12;shape:topic|ban-vs-name|ban-vs-invite|stale-topic K=24 timeout=1200 maporder=github.com/matrix-org/gomatrixserverlib.ResolveStateConflictsV2New|github.com/matrix-org/gomatrixserverlib.splitConflictedUnconflicted|github.com/matrix-org/gomatrixserverlib.eventMapFromEvents|github.com/matrix-org/gomatrixserverlib.kahnsAlgorithmUsingAuthEvents|github.com/matrix-org/gomatrixserverlib.kahnsAlgorithmUsingPrevEvents
 // vp:check C11 both configs=version:1|2|10;shape:two-members K=24 timeout=1200 maporder=github.com/matrix-org/gomatrixserverlib.ResolveStateConflictsV2New|github.com/matrix-org/gomatrixserverlib.splitConflictedUnconflicted|github.com/matrix-org/gomatrixserverlib.eventMapFromEvents|github.com/matrix-org/gomatrixserverlib.kahnsAlgorithmUsingAuthEvents|github.com/matrix-org/gomatrixserverlib.kahnsAlgorithmUsingPrevEvents
 // vp_C11_resolve: ResolveConflictsNew on two state sets forked after an agreed base (create, join, power levels):
 // the result set is the same for both orders of the state sets, for permuted events inside the sets, for every map
@@ -117,7 +117,26 @@ func vp_C11_resolve() {
 	setA := append(append([]PDU{}, h.base...), fa)
 	setB := append(append([]PDU{}, h.base...), fb)
 	agreed := h.base
-	if vpConfig("shape") == "two-members" {
+	if vpConfig("shape") == "stale-topic" {
+		// Bob (level 50) joined and was later banned; the ban is part of both state sets (unconflicted). One set still
+		// carries a topic Bob set while he was a member, the other a topic set by Alice. Algorithm v2 checks the
+		// conflicted events on top of the unconflicted state (Bob is banned there: his topic is dropped); v2.1 starts
+		// from the empty state, so Bob's topic is judged by its own auth events and competes on the mainline order.
+		plc := vpJObj("users", vpJObj(vpAlice, int64(100), vpBob, int64(50)), "state_default", int64(50), "events_default", int64(0))
+		if vpIsV12(ver) {
+			plc = vpJObj("users", vpJObj(vpBob, int64(50)), "state_default", int64(50), "events_default", int64(0))
+		}
+		h.pl = vpSetAuth(vpMkEvent(ver, "$pl:x", h.room, vpAlice, spec.MRoomPowerLevels, vpStrPtr(""), plc), []string{h.createID, "$join:x"}, 3, 3)
+		bobJoin := vpSetAuth(vpMkEvent(ver, "$bj:x", h.room, vpBob, spec.MRoomMember, vpStrPtr(vpBob), vpJObj("membership", spec.Join)), []string{h.createID, "$pl:x"}, 4, 4)
+		ban := vpSetAuth(vpMkEvent(ver, "$ban:x", h.room, vpAlice, spec.MRoomMember, vpStrPtr(vpBob), vpJObj("membership", spec.Ban)), append(append([]string{}, authIDs...), "$bj:x"), 6, 6)
+		h.base = []PDU{h.create, h.join, h.pl, ban}
+		agreed = h.base
+		extraAuth = append(extraAuth, bobJoin)
+		fa = vpSetAuth(vpMkEvent(ver, "$ta:x", h.room, vpAlice, "m.room.topic", vpStrPtr(""), vpJObj("topic", "A")), authIDs, tsA, 7)
+		fb = vpSetAuth(vpMkEvent(ver, "$tb:x", h.room, vpBob, "m.room.topic", vpStrPtr(""), vpJObj("topic", "B")), []string{h.createID, "$pl:x", "$bj:x"}, tsB, 5)
+		setA = append(append([]PDU{}, h.base...), fa)
+		setB = append(append([]PDU{}, h.base...), fb)
+	} else if vpConfig("shape") == "two-members" {
 		// two membership keys conflicted at once, the sender of one candidate being the user of the other key:
 		// invite-only room; set A: Alice invites Bob, Alice invites Carol; set B: Bob has joined on that invite and
 		// Bob invites Carol. The blocks of one type must be resolved against the same auth state whatever their order.
@@ -184,7 +203,17 @@ func vp_C11_resolve() {
 	// the state the v2 / v2.1 algorithm defines for these shapes (C10)
 	n, _ := vpVerNum(ver)
 	if n >= 2 && vpConfig("shape") != "two-members" {
-		if vpConfig("shape") == "topic" {
+		if vpConfig("shape") == "stale-topic" {
+			if vpIsV12(ver) {
+				// v2.1: both topics pass their own auth events; the later one on the mainline order is applied last
+				bWins := tsB > tsA || (tsB == tsA && fb.EventID() > fa.EventID())
+				vpAssert("v2.1-empty-start-topic-winner", got[fb.EventID()] == bWins && got[fa.EventID()] == !bWins)
+			} else {
+				// v2: the unconflicted ban is in force when Bob's topic is checked
+				vpAssert("v2-unconflicted-ban-in-force", got[fa.EventID()] && !got[fb.EventID()])
+			}
+			vpAssert("ban-kept", got["$ban:x"])
+		} else if vpConfig("shape") == "topic" {
 			// two non-power events on the same mainline position: ordered by (timestamp, ID), the later one is applied last
 			bWins := tsB > tsA || (tsB == tsA && fb.EventID() > fa.EventID())
 			// KF-C10-1: in v2.1 the partial state is empty, the fallback to the event's own auth events adds the event itself
